@@ -44,6 +44,8 @@ struct DynError {
     code: ErrorCode,
     name: &'static str,
     fields: Vec<Field>,
+    /// an error type that carries its own instance id (as SerializableError does)
+    own_id: Option<Uuid>,
 }
 
 impl ErrorType for DynError {
@@ -54,7 +56,7 @@ impl ErrorType for DynError {
         self.name
     }
     fn instance_id(&self) -> Option<Uuid> {
-        None
+        self.own_id
     }
     fn safe_args(&self) -> &'static [&'static str] {
         let mut v: Vec<&'static str> = self.fields.iter().filter(|f| f.safe).map(|f| f.name).collect();
@@ -317,6 +319,17 @@ fn check_error(e: &DynError, r: &mut Report, all_constructions: bool) {
     check_encoded(e, &encode(&&wid), Some(id), r, "encode(&&with_instance_id)");
     check_encoded(e, &encode(&&&wid), Some(id), r, "encode(&&&with_instance_id)");
     check_encoded(e, &encode(&(&e.clone()).with_instance_id(id)), Some(id), r, "encode((&e).with_instance_id)");
+    // overriding twice: the outermost (latest) id is the supplied one; an error type carrying its
+    // own id keeps it when encoded bare and loses it to with_instance_id
+    let id2 = Uuid::from_u128(0xfedc_ba98_7654_4321_8123_4567_89ab_cdef);
+    let own = DynError { own_id: Some(id2), ..e.clone() };
+    r.evaluations += 5;
+    r.transitions += 5;
+    check_encoded(e, &encode(&e.clone().with_instance_id(id2).with_instance_id(id)), Some(id), r, "encode+with_instance_id(x2)");
+    check_encoded(e, &encode(&(&e.clone().with_instance_id(id2)).with_instance_id(id)), Some(id), r, "encode((&with_instance_id).with_instance_id)");
+    check_encoded(e, &encode(&own), Some(id2), r, "encode(error-with-own-id)");
+    check_encoded(e, &encode(&own.clone().with_instance_id(id)), Some(id), r, "encode(error-with-own-id+with_instance_id)");
+    check_encoded(e, &encode(&&(&own).with_instance_id(id)), Some(id), r, "encode(&(&error-with-own-id).with_instance_id)");
     if e.code.status_code() != model_status(&e.code) {
         r.violation(format!("C17|status-code|{}", e.code.as_str()), format!("{} maps to HTTP {}", e.code.as_str(), e.code.status_code()), json!({"error": describe(e), "via": "status"}));
     }
@@ -333,6 +346,10 @@ fn check_error(e: &DynError, r: &mut Report, all_constructions: bool) {
     let p2 = params_of(&s2);
     check_encoded_kind(e, &s2, Some(id), r, "Error::service_safe");
     check_partition(e, &s2, &p2, false, true, r, "Error::service_safe");
+    let s7 = Error::service("cause", own.clone().with_instance_id(id));
+    check_encoded_kind(e, &s7, Some(id), r, "Error::service(error-with-own-id+with_instance_id)");
+    let s8 = Error::service_safe("cause", e.clone().with_instance_id(id2).with_instance_id(id));
+    check_encoded_kind(e, &s8, Some(id), r, "Error::service_safe(with_instance_id x2)");
     let s5 = Error::service("cause", &wid);
     check_encoded_kind(e, &s5, Some(id), r, "Error::service(&with_instance_id)");
     check_partition(e, &s5, &params_of(&s5), false, false, r, "Error::service(&with_instance_id)");
@@ -387,6 +404,7 @@ pub fn run(args: &Args) -> Report {
                             code: cs[(i + j) % cs.len()].clone(),
                             name: "Verif:OneParam",
                             fields: vec![Field { name: "fooBar", shape: shape.clone(), val: val.clone(), safe, skip_if_empty: skip }],
+                            own_id: None,
                         };
                         // the Error constructors capture a back-trace each: use them on every
                         // shape but only on the first values
@@ -407,7 +425,7 @@ pub fn run(args: &Args) -> Report {
         for shape in [Shape::Leaf(l), Shape::opt(Shape::Leaf(l))] {
             for (j, val) in space::values(&shape, 1).into_iter().enumerate() {
                 for safe in [true, false] {
-                    let e = DynError { code: cs[j % cs.len()].clone(), name: "Verif:OneParam", fields: vec![Field { name: "fooBar", shape: shape.clone(), val: val.clone(), safe, skip_if_empty: false }] };
+                    let e = DynError { code: cs[j % cs.len()].clone(), name: "Verif:OneParam", fields: vec![Field { name: "fooBar", shape: shape.clone(), val: val.clone(), safe, skip_if_empty: false }], own_id: None };
                     check_error(&e, &mut px, true);
                 }
             }
@@ -450,7 +468,7 @@ pub fn run(args: &Args) -> Report {
             if ns > max_args || nu > max_args {
                 return r;
             }
-            let e = DynError { code: ErrorCode::Conflict, name: "Verif:Partition", fields };
+            let e = DynError { code: ErrorCode::Conflict, name: "Verif:Partition", fields, own_id: None };
             check_error(&e, &mut r, true);
             if idx == 7u64.pow(4) + 9 {
                 r.sample("partition", describe(&e));
@@ -462,7 +480,7 @@ pub fn run(args: &Args) -> Report {
 
     // ---- part 3: every code x status
     for c in codes() {
-        let e = DynError { code: c, name: "Verif:Code", fields: vec![] };
+        let e = DynError { code: c, name: "Verif:Code", fields: vec![], own_id: None };
         check_error(&e, &mut report, true);
     }
 
